@@ -1932,7 +1932,8 @@ def builder_case(ctx: Ctx, fmt: str, pt: int, doc: str, limit: float) -> None:
                     html, err = (None, None) if st is None else flatten_safely(st)
             except Hang:
                 ctx.fail("hang:" + opn, inp, opn + " did not return")
-                continue
+                ctx.count("builder:hangs")
+                return          # one hang establishes the violation: do not pay the time limit again for the other objects
             except Exception as e:
                 ctx.fail("%s:raises:%s" % (opn, type(e).__name__), inp, "%s raised %s" % (opn, type(e).__name__))
                 continue
@@ -2121,6 +2122,9 @@ def run(ctx: Ctx) -> None:
     # ---- (c) through the AST builder, property included (oracle only): fixed shapes, then lone surrogates
     for n, doc in enumerate(BUILDER_DOCS + REGRESSION_DOCS):
         for fi, fmt in enumerate("ergnp"):
+            if ctx.dist.get("builder:hangs", 0) >= 2:
+                ctx.count("builder:not-run-after-hangs")
+                continue
             builder_case(ctx, fmt, (n + fi) % 2, doc, limit)
             ctx.case("builder %s %r" % (fmt, doc), True, None)
     nsur = 6 if ctx.quick else 60
